@@ -598,7 +598,7 @@ PROPS["C11"] = dict(
 
 PROPS["C02"] = dict(
     title="Acknowledged mode recovers from any bounded loss, duplication and reordering",
-    module="Cfdp.Props.C02f",
+    module="Cfdp.Props.C02m",
     namespace="Cfdp.Seg",
     theorems=["C02_round_completes", "C02_gaps_answered", "Cfdp.Recv.C02_finishes_when_complete", "Cfdp.Recv.C02_never_waits_complete", "Cfdp.Recv.C02_complete_is_success", "Cfdp.Recv.C02_size_check_passes", "Cfdp.Loop.C02_no_integrity_fault", "Cfdp.Net.C02_two_party_no_integrity_fault", "Cfdp.Loop.C02_recv_completes", "Cfdp.Loop.C02_send_completes", "Cfdp.Net.C02_two_party_completes",
               "Cfdp.Loop.C02_sender_answers_nak", "Cfdp.Loop.C02_receiver_recovers", "Cfdp.Loop.C02_recovery_round",
@@ -606,7 +606,8 @@ PROPS["C02"] = dict(
               "Cfdp.Loop.C02_lost_eof_round", "Cfdp.Loop.C02_lost_finished_round", "Cfdp.Loop.C02_lost_metadata_round",
               "Cfdp.Loop.C02_lossy_rounds", "Cfdp.Loop.C02_lossy_rounds_fair", "Cfdp.Loop.C02_two_party_nak_loop",
               "Cfdp.Loop.C02_eof_repeated", "Cfdp.Loop.C02_lost_eofs_round", "Cfdp.Loop.C02_lost_finisheds_round",
-              "Cfdp.Loop.C02_from_eof_lossy_rounds", "Cfdp.Loop.C02_completion_then_lost_finisheds"],
+              "Cfdp.Loop.C02_from_eof_lossy_rounds", "Cfdp.Loop.C02_completion_then_lost_finisheds",
+              "Cfdp.Loop.C02_lost_metadatas_round"],
     engines=["daemon", "recv", "send", "net"],
     design="§6 C02",
     technique="Lean 4 proofs of the recovery steps and of whole single-loss recovery rounds (lost data, EOF, Finished / ACK, Metadata) through both transaction models and the link, and of the receiver's NAK loop over any fair lossy schedule (any number of lossy rounds, limits derived from fairness); the whole transfer over a lossy schedule of both models is checked on two real daemons under a virtual clock with bounded fault plans",
@@ -672,8 +673,11 @@ PROPS["C02"] = dict(
                 "recorded and the Finished PDU due, nothing else pending (completion_state); after the transmission that follows it waits for the ACK in the starting state of the Finished "
                 "retransmission loop (completion_enters_wait), so a completed delivery whose Finished PDU or ACK is lost again and again below the limits still ends both transactions "
                 "with NoError (C02_completion_then_lost_finisheds). "
-                "PARTIAL: the loop theorems are per phase (data recovery with the EOF handshake done; EOF handshake with the data complete; Finished handshake); a lost Metadata PDU is a "
-                "single-loss round; the sender's own timers are not events of the two-party NAK loop (its inactivity limit while it waits for NAKs is bounded by C03 / C17). The "
+                "And the Metadata PDU lost again and again (Props/C02m.lean): a receiver holding the truthful EOF and every byte but no Metadata rebuilds its queue with the 0-0 marker at "
+                "every NAK-timer expiry below the limits and keeps what it has (md_round, md_repeated); whichever of those NAKs reaches the sender makes it repeat the Metadata PDU, which "
+                "completes the delivery (C02_lost_metadatas_round). "
+                "PARTIAL: the loop theorems are per phase (data recovery with the EOF handshake done; EOF handshake with the data complete; Metadata missing with the data complete; Finished "
+                "handshake); the sender's own timers are not events of the two-party NAK loop (its inactivity limit while it waits for NAKs is bounded by C03 / C17). The "
                 "composition of all phases over one lossy fair schedule of both models is not one theorem. It is checked on the real code: the daemon engine runs acknowledged transfers between two real daemons with every kind of fault "
                 "plan below the limit and requires file identity, success at both users and termination of both transactions (oracles recovers, same_outcome, daemon_bounded); the net engine does the same on a real sender and a real receiver in lockstep with both Lean models (losses confined to a zero-time phase, then a loss-free link)."),
     level_note=DAEMON_NOTE + " " + RECV_SEND_NOTE,
@@ -683,5 +687,5 @@ PROPS["C02"] = dict(
           "per-side steps, plus theorem-shaped loop schedules whose oracles are the loop theorems' conclusions evaluated on the real transactions: nak_loop (40 quick / 400 thorough receivers, limit 3-5: rounds in the second period of the NAK timer, the link lets through part of what is missing, a duplicate or nothing, never limit-1 fruitless rounds in a row nor limit inactivity periods without a delivery; oracles nak_loop_within_limits, nak_loop_completes), fin_loop (every fourth of those: the Finished PDU lost up to limit-1 times, oracle fin_loop_repeats), eof_loop (30 / 300 senders, a third of them cancelled: the EOF lost up to limit-1 times, oracle eof_loop_repeats). Non-trivial = a routing line with at least one delivered PDU / a PDU emitted."
           " net engine (300 quick / 3000 thorough two-party histories): one real SendTransaction and one real RecvTransaction joined by a simulated link that delivers only PDUs the other side emitted (in order, lost, duplicated, reordered, as stragglers), random schedules of transmissions, deliveries, timer expiries and user requests at both sides, then a loss-free fair phase on the shared virtual clock until both have ended; every call is answered in lockstep by the Lean sender and receiver models (ops net s / net r), the per-side oracles of the send / recv engines keep running, and two-party oracles are added: C02 recovers / same_outcome (acknowledged mode, losses confined to a zero-time phase, default handlers: both sides report success), C03 net_bounded / net_never_stuck, C04 sender_success_only_after_receiver, C01 two_party_file."),
     assumptions=["bounded faults: fewer than `limit` faults per transfer, delays below the timers (as the property states)"],
-    unproved=["one theorem for the whole transfer over a lossy fair schedule of both models and the link: proved are 'delivery implies completion' (receiver and two-party model), every single-loss round (lost data, EOF, Finished / ACK, Metadata) through both models and the link, and the NAK loop over any fair lossy schedule (C02_lossy_rounds_fair, C02_two_party_nak_loop: limits derived from fairness) and the EOF / Finished retransmission loops up to the limit (C02_lost_eofs_round, C02_lost_finisheds_round) - each phase on its own; interleavings of the phases (a NAK loop while the EOF is still unacknowledged), a Metadata PDU lost repeatedly and the sender's inactivity limit while it waits for NAKs are bounded by C03 / C17 and checked dynamically by the daemon and net engines"],
+    unproved=["one theorem for the whole transfer over a lossy fair schedule of both models and the link: proved are 'delivery implies completion' (receiver and two-party model), every single-loss round (lost data, EOF, Finished / ACK, Metadata) through both models and the link, and the NAK loop over any fair lossy schedule (C02_lossy_rounds_fair, C02_two_party_nak_loop: limits derived from fairness) and the EOF / Finished retransmission loops up to the limit (C02_lost_eofs_round, C02_lost_finisheds_round) - each phase on its own; interleavings of the phases (a NAK loop while the EOF is still unacknowledged or the Metadata still missing) and the sender's inactivity limit while it waits for NAKs are bounded by C03 / C17 and checked dynamically by the daemon and net engines"],
 )
